@@ -83,7 +83,9 @@ class SeriesOps:
             other = pos[1] if len(pos) > 1 else kw.get("other", ("nan",))
             return s.with_term(T.ite(M.as_ser_term(arg0), M.as_ser_term(other), s.term))
         if name in ("apply", "map"):
-            return self._series_apply(s, arg0 if pos else kw.get("func", kw.get("arg")), node)
+            own = ("func", "convert_dtype", "args", "by_row") if name == "apply" else ("arg", "na_action")
+            extra = {k: v for k, v in kw.items() if k not in own}
+            return self._series_apply(s, arg0 if pos else kw.get("func" if name == "apply" else "arg"), node, extra)
         if name == "rename" and (pos and isinstance(pos[0], str) or isinstance(kw.get("index"), str)) and not kw.get("inplace"):
             r = Ser(s.term, s.ctx, s.frame, pos[0] if pos else kw.get("index"), s.positional)
             r.renamed_from = getattr(s, "renamed_from", s.name)          # the column it was taken from (for to_frame / DataFrame(series))
@@ -165,12 +167,12 @@ class SeriesOps:
             g.setcol(new, s.term)
         return g
 
-    def _series_apply(self, s: Ser, fn: Any, node) -> Ser:
+    def _series_apply(self, s: Ser, fn: Any, node, extra=None) -> Ser:
         if isinstance(fn, FuncRef):
             if isinstance(fn.node, ast.Lambda) or True:
                 # evaluate the function body symbolically with the element bound to the column term
                 try:
-                    r = self.I.call_merged(fn, [s.term], {}, node)
+                    r = self.I.call_merged(fn, [s.term], dict(extra or {}), node)          # Series.apply(f, **kwargs) forwards the keywords to f
                     rt = to_term(r)
                     return s.with_term(rt)          # a named function and a lambda with the same body give the same column term
                 except RecursionError:
